@@ -67,6 +67,8 @@ fn main() {
                 budget: arg(&args, "--budget").and_then(|s| s.parse().ok()).unwrap_or(1000),
                 out: arg(&args, "--out").unwrap_or_else(|| "/dev/stdout".into()),
                 replay: None,
+                only: arg(&args, "--only").and_then(|s| s.parse().ok()),
+                trace: std::env::var("GVH_TRACE_CASES").is_ok(),
             };
             report::install_quiet_panic_hook();
             let mut sh = Shard::new();
@@ -76,9 +78,28 @@ fn main() {
         "replay" => {
             let txt = std::fs::read_to_string(&args[2]).expect("read replay file");
             let v: Value = serde_json::from_str(&txt).expect("parse replay file");
+            let v = if v.get("case").is_some() && v["case"].get("crash_replay").is_some() { v["case"].clone() } else { v };
             report::install_quiet_panic_hook();
             let mut sh = Shard::new();
-            mon::replay(&v, &mut sh);
+            if v.get("crash_replay").is_some() {
+                // re-run exactly the case during which a shard died
+                let ctx = Ctx {
+                    prop: v["property"].as_str().unwrap_or("").to_string(),
+                    seed: v["seed"].as_u64().unwrap_or(1),
+                    shard: v["shard"].as_u64().unwrap_or(0),
+                    nshards: v["nshards"].as_u64().unwrap_or(1),
+                    tier: v["tier"].as_str().unwrap_or("quick").to_string(),
+                    budget: v["budget"].as_u64().unwrap_or(1),
+                    out: "/dev/null".into(),
+                    replay: None,
+                    only: v["k"].as_u64(),
+                    trace: false,
+                };
+                println!("re-running case k={} of shard {} (seed {})", v["k"], ctx.shard, ctx.seed);
+                mon::run(&ctx, &mut sh);
+            } else {
+                mon::replay(&v, &mut sh);
+            }
             println!("replay: evaluations={} violations={}", sh.evaluations, sh.violation_count);
             for (s, n) in &sh.viol_sigs {
                 println!("  {n} x {s}");
